@@ -357,6 +357,7 @@ def regressions(ctx, rng):
     for it in range(ctx.n(4, 16)):
         mm = O.tagged_mesh(['MeshTri1', 'MeshQuad1', 'MeshTet1', 'MeshHex1'][it % 4], rng, holes=False)
         run_op(ctx, O.op_selector_forms, mm, rng)
+        run_op(ctx, O.op_trace, mm, rng)                     # unsorted / repeated explicit facet arrays
         run_op(ctx, O.op_rmatmul_trace, mm, rng)
         run_op(ctx, O.op_line_surgery, mm, rng)
     # keys of the facet lookup of to_meshtri beyond 2^31 (one mesh with 48400 points; about 0.5 s)
